@@ -616,6 +616,23 @@ func (p *Peer) AcceptAssociation(d time.Duration) bool {
 	return false
 }
 
+// Rebind closes the peer's socket and opens it again on the SAME address and port (a control plane that restarts).
+func (p *Peer) Rebind() error {
+	la := p.Conn.LocalAddr().(*net.UDPAddr)
+	ra := p.Conn.RemoteAddr().(*net.UDPAddr)
+	_ = p.Conn.Close() // (closing twice is harmless)
+	var err error
+	for i := 0; i < 20; i++ {
+		var c *net.UDPConn
+		if c, err = net.DialUDP("udp", la, ra); err == nil {
+			p.Conn = c
+			return nil
+		}
+		time.Sleep(5 * time.Millisecond)
+	}
+	return err
+}
+
 func (p *Peer) Close() { p.Conn.Close() }
 
 func (p *Peer) NextSeq() uint32 { p.seq++; return p.seq }
